@@ -16,6 +16,9 @@ class References:
     if len(self.segment_names) == 1:
       return []
     has_undef_overlaps = self._undef_overlaps()
+    if not has_undef_overlaps:
+      # also at validation level 0: the overlaps are indexed by junction
+      self._validate_lists_size()
     retval = []
     is_circular = self.is_circular()
     for i in range(len(self.segment_names)):
